@@ -146,6 +146,10 @@ class FakeNetwork:
         self.calls.append([txid, height])
         return self.response
 
+    async def get_transaction_batch(self, txids, restricted):
+        self.batch_calls = getattr(self, 'batch_calls', []) + [[list(txids), restricted]]
+        return {txid: self.batch[txid] for txid in txids}
+
 
 class World:
     """one event loop, header stores cached by their roots"""
@@ -458,6 +462,74 @@ def block_cases(rng, n, seed, indices, thorough):
                    roots=[r.hex() for r in roots2], arg={'merkle': text_elems(branch), 'pos': idx})
 
 
+def batch_checks(run, world, model, rng, n, seed):
+    """the real call site: Ledger._single_batch builds fresh Transaction objects from the server's answer
+    (raw hex + merkle dict per txid) and runs maybe_verify_transaction on each; every transaction of the batch
+    is then judged by the monitor and compared with the model started from the fresh state"""
+    raws = make_block(n, seed)
+    leaves = [H(r) for r in raws]
+    levels = ref_levels(leaves)
+    root = levels[-1][0]
+    size = rng.randrange(3, 8)
+    at = rng.randrange(1, size)
+    roots = fresh_roots(rng, size, at, root)
+    ledger, hraws = world.ledger_for(roots)
+    idxs = rng.sample(range(n), min(n, rng.randrange(1, 9)))
+    entries = []
+    for idx in idxs:
+        branch = ref_branch(levels, idx)
+        path = ref_path(branch, idx, leaves[idx])
+        c = rng.random()
+        pos, br, exp, flavour = idx, list(branch), 'accept', 'genuine'
+        if c < 0.5:
+            pass
+        elif c < 0.65 and branch:
+            k = rng.randrange(len(branch))
+            br[k] = rng.randbytes(32)
+            exp, flavour = 'reject', 'wrong-sibling'
+        elif c < 0.8 and branch:
+            k = rng.randrange(len(branch))
+            pos = idx ^ (1 << k)
+            dup = branch[k] == path[k]
+            exp, flavour = ('accept-dup' if dup else 'reject'), 'pos-bit'
+        elif c < 0.9 and n > 1:
+            j = rng.choice([i for i in range(n) if i != idx])
+            br, pos = ref_branch(levels, j), j
+            exp, flavour = 'reject', 'proof-of-other-tx'
+        else:
+            br = branch + [rng.randbytes(32)]
+            exp, flavour = 'reject', 'len+1'
+        entries.append((idx, {'merkle': text_elems(br), 'pos': pos}, exp, flavour))
+    net = FakeNetwork(None)
+    net.batch = {wire(leaves[idx]): (raws[idx].hex(), decode_arg(arg)) for idx, arg, _, _ in entries}
+    ledger.network = net
+    heights = {wire(leaves[idx]): at for idx, _, _, _ in entries}
+    batch_case = {'kind': 'batch', 'n': n, 'block_seed': seed, 'roots': [r.hex() for r in roots], 'height': at,
+                  'entries': [[idx, arg, flavour] for idx, arg, _, flavour in entries]}
+    try:
+        txs = world.loop.run_until_complete(ledger._single_batch(list(heights), heights))
+    except Exception as e:
+        run.case(batch_case)
+        run.disagreement('C08.batch', batch_case, type(e).__name__, 'no exception')
+        return
+    for idx, arg, exp, flavour in entries:
+        case = {'kind': 'batch:' + flavour, 'n': n, 'block_seed': seed, 'idx': idx, 'raw': raws[idx].hex(),
+                'roots': batch_case['roots'], 'height': at, 'arg': arg, 'net': {}, 'expect': exp}
+        tx = txs.get(wire(leaves[idx]))
+        run.case(case, nontrivial=True)
+        run.count('kind:' + case['kind'])
+        if tx is None:
+            run.violation(case, 'transaction missing from the batch result', signature={'kind': case['kind'], 'n': n, 'idx': idx})
+            continue
+        obs = {'height': tx.height, 'position': tx.position, 'verified': tx.is_verified, 'outcome': 'tx', 'fetched': False}
+        extra = {'net_calls': net.calls, 'txid': tx.id, 'hash': tx.hash, 'len_headers': len(ledger.headers)}
+        bad = monitor(case, obs, extra) or (net.calls and 'get_merkle called although the batch carried the proofs')
+        if bad:
+            run.violation(case, bad, signature={'kind': case['kind'], 'n': n, 'idx': idx, 'block_seed': seed})
+            continue
+        run.compare('C08.maybe_verify via _single_batch', case, obs, run_model(model, case, hraws))
+
+
 BAD_ELEMS = ['', 'a', 'zz', '0g', 'abc', ' ' * 64, '0x' + '11' * 31, '11' * 31, '11' * 33, '1' * 63, 'AB' * 32,
              'aB' * 32, '\n' + '11' * 32, '11' * 32 + '\n', '+1' * 32, '-1' * 32, '1_' * 32, '\x00' * 64]
 
@@ -703,7 +775,7 @@ def ref_verify_claim_proof(proof, root_hash, name):
     return True
 
 
-def make_trie_proof(rng, name, with_value=True):
+def make_trie_proof(rng, name, with_value=True, order='asc'):
     """a claim trie path for `name` (characters = its UTF-8 bytes) with random siblings, built bottom-up;
     returns (proof, root_hex)"""
     chars = list(name.encode('utf-8'))
@@ -721,7 +793,14 @@ def make_trie_proof(rng, name, with_value=True):
             if c not in used:
                 used.add(c)
         buf = b''
-        for c in sorted(used):
+        seq = sorted(used)
+        if order == 'desc':
+            seq = seq[::-1]
+        elif order == 'dup' and depth == len(chars):
+            c0 = rng.choice([0, 0, rng.randrange(1, 256)])      # a repeated 0 is not noticed by the original
+            seq = sorted(set(seq) | {c0})
+            seq.insert(seq.index(c0), c0)
+        for c in seq:
             if depth < len(chars) and c == chars[depth]:
                 children.append({'character': c})
                 buf += bytes([c]) + prev
@@ -745,15 +824,16 @@ def make_trie_proof(rng, name, with_value=True):
     return proof, wire(prev)
 
 
-def claim_proof_checks(run, rng, count):
+def claim_proof_checks(run, model, rng, count):
     for _ in range(count):
         name = ''.join(rng.choice('abcdefghijklmnopqrstuvwxyz0123456789-' * 3 + '\u00e9\u00fc\u65e5\u0416')
                        for _ in range(rng.randrange(0, 6)))
-        proof, root = make_trie_proof(rng, name, with_value=rng.random() < 0.8)
+        order = rng.choice(['asc'] * 8 + ['desc', 'dup'])
+        proof, root = make_trie_proof(rng, name, with_value=rng.random() < 0.8, order=order)
         ask = name
         m = rng.random()
-        mutation = 'genuine'
-        if m < 0.5:
+        mutation = 'genuine' if order == 'asc' else 'consistent-' + order
+        if m < 0.5 and order == 'asc':
             mutation = rng.choice(['root', 'sibling', 'name', 'longer-name', 'txhash', 'nout', 'takeover', 'drop-node',
                                    'reorder', 'char', 'drop-value-keys', 'bad-len'])
             p = json.loads(json.dumps(proof))
@@ -810,8 +890,17 @@ def claim_proof_checks(run, rng, count):
         if mutation == 'genuine' and impl is not True:
             run.violation(case, 'legacy verify_proof rejects a genuine claim-trie proof',
                           signature={'kind': 'legacy-claim-proof', 'name': ask, 'root': root})
+            continue
+        if not run.compare('C08.legacy.verify_proof vs harness checker (no theorem)', case, impl, want):
+            continue
+        # the Gallina model of verify_proof (Model/C08_Claim.v), ASCII names only
+        mod = model.call('claim_verify', proof=proof, root=root, name=ask.encode('utf-8').hex())
+        impl_c = impl if impl in (True, 'invalid') else 'other'
+        chain = [c['character'] for nd in proof['nodes'] for c in nd['children'] if 'nodeHash' not in c]
+        if mod == 'other' and impl_c != 'other' and any(isinstance(c, int) and c >= 128 for c in chain):
+            run.count('legacy-outside-model(non-ascii name)')
         else:
-            run.compare('C08.legacy.verify_proof (no theorem)', case, impl, want)
+            run.compare('C08.legacy.verify_proof vs Gallina model (no theorem)', case, impl_c, mod)
 
 
 # ------------------------------------------------------------------------------------------------
@@ -845,7 +934,8 @@ def main(run):
         'heights {0,-1,h-1,h+1,len-1,len,len+1,2^31,-2^40,random}. Boundary heights 1 and len-1; same root under two '
         'heights. Malformed stream: missing keys, falsy dict (network fetch), undecodable / upper-case / bytes / '
         'over- and under-long siblings, negative and 2^64-scale positions, re-verification of an already verified tx. '
-        'get_root_of_merkle_tree directly under SHA-256d and under a weak hash; explicit collisions from the model; '
+        'Ledger._single_batch (the real call site, fresh Transaction objects) on batches of 1..8 transactions with '
+        'genuine and wrong proofs mixed. get_root_of_merkle_tree directly under SHA-256d and under a weak hash; explicit collisions from the model; '
         'legacy claim_proofs.verify_proof on generated trie paths and 12 mutations (correspondence only). '
         'distinct = distinct case JSON; non-trivial = a proof was evaluated or an error branch taken.')
     try:
@@ -873,11 +963,13 @@ def main(run):
             tree_checks(run, model, n, seed, indices)
             for case in block_cases(rng, n, seed, indices, thorough):
                 do_case(run, world, model, case)
+        for _ in range(vlib.scaled(run.tier, 150, 4000)):
+            batch_checks(run, world, model, rng, rng.choice([1, 2, 3, 5, 6, 7, 8, 11, 16, 21, 33, 64]), rng.randrange(10 ** 9))
         for case in malformed_cases(rng, vlib.scaled(run.tier, 1500, 30000)):
             do_case(run, world, model, case)
         static_fold_checks(run, model, rng, vlib.scaled(run.tier, 1500, 30000))
         collision_demo(run, model, rng, vlib.scaled(run.tier, 30, 400))
-        claim_proof_checks(run, rng, vlib.scaled(run.tier, 1500, 40000))
+        claim_proof_checks(run, model, rng, vlib.scaled(run.tier, 1500, 40000))
         run.exhaustive = thorough
         run.partial = ['C08_length_mutation_partial: branch length +-1 is only characterised (a hash input containing '
                        'its own hash), not reduced to a collision; rejection of these mutants is checked by the '
